@@ -4,6 +4,8 @@
 P=$1; shift
 S=$(mktemp -d /tmp/w2c2-tryseed.XXXXXX); trap 'rm -rf "$S"' EXIT
 mkdir -p "$S/repo"; (cd /repo && cp -r w2c2 wasi futex "$S/repo/")
+# AST dumps of patched sources go to a throw-away cache that starts as a hard-link copy of the main one
+cp -al /verif/.cache "$S/cache" 2>/dev/null || mkdir -p "$S/cache"; export VERIF_CACHE_DIR="$S/cache"
 patch -s -p1 -d "$S/repo" < "$P" || { echo "patch does not apply"; exit 3; }
 for pid in "$@"; do
   VERIF_REPO="$S/repo" VERIF_EVIDENCE_DIR="$S/ev" /verif/check "$pid" 2>&1 | grep -v '^VIOLATION' | tail -${TAIL:-4} | cut -c1-400
